@@ -387,7 +387,7 @@ func checkC16(c C16Case) (vs []*Violation) {
 	ct := restful.NewContainer()
 	ws := new(restful.WebService)
 	ws.Path("/")
-	ws.Route(ws.POST("/e").To(func(req *restful.Request, resp *restful.Response) {
+	reader := func(req *restful.Request, resp *restful.Response) {
 		last = readResult{}
 		if codecNow == "json" {
 			last.err = req.ReadEntity(&last.j)
@@ -395,7 +395,12 @@ func checkC16(c C16Case) (vs []*Violation) {
 			last.err = req.ReadEntity(&last.x)
 		}
 		resp.WriteHeader(204)
-	}))
+	}
+	ws.Route(ws.POST("/e").To(reader))
+	// the same, on routes that document what they read (by pointer and by value, as the
+	// library's own examples do); documentation declares nothing
+	ws.Route(ws.POST("/ej").Reads(&entityJ{}).To(reader))
+	ws.Route(ws.POST("/ex").Reads(entityX{}).To(reader))
 	// the writer side: the entity is written by the entity writer selected by Accept
 	var toWrite interface{}
 	ws.Route(ws.GET("/w").Produces(restful.MIME_JSON, restful.MIME_XML).To(func(req *restful.Request, resp *restful.Response) {
@@ -460,6 +465,9 @@ func checkC16(c C16Case) (vs []*Violation) {
 			wire, mustFail = damageBody(r, plain, wire)
 		}
 		q := model.ReqSpec{Method: "POST", Path: "/e", Body: string(wire)}
+		if i%3 == 1 {
+			q.Path = map[string]string{"json": "/ej", "xml": "/ex"}[r.Codec]
+		}
 		switch r.CTForm {
 		case 0:
 			q.Headers = append(q.Headers, model.H{K: "Content-Type", V: mime})
